@@ -140,9 +140,12 @@ def _make(rng, w, dst, inner=False):
                 a, b = rng.choice([0, 1, 2]), 65535
             c.gaps.append((a, b))
         if wide and rng.random() < 0.5:
-            # acknowledging far beyond anything that was sent (everything outstanding is then released)
-            c.cumulative_tsn = (t._local_tsn + rng.choice([0, 1, 5, 1000, 2**30])) % 2**32
-            forging = True
+            # acknowledging beyond anything that was sent, or exactly half the number space away from the last
+            # acknowledged TSN (neither ahead nor behind in serial arithmetic): such a SACK must be ignored - were it
+            # accepted, the next SACK's gap blocks would be expanded over millions of TSNs
+            c.cumulative_tsn = rng.choice([(t._local_tsn + rng.choice([0, 1, 5, 1000, 2**30, 2**31 - 2])) % 2**32,
+                                           (sacked + 2**31) % 2**32])
+            forging = False
         c.duplicates = [rng.choice(U32) for _ in range(rng.choice([0, 1, 3]))]
         chunks.append(bytes(c))
     elif kind == 9:    # FORWARD TSN
